@@ -95,12 +95,15 @@ theorem dep_decode_total (b106 req : Bool) (frame : Bytes) : Safe FrameErr (deco
       · exact Safe.throw (Or.inl rfl)
       · exact frameBody_safe req f2
 
-/-- for the code as found the model is the `decodeFrame` of property C04 -/
-theorem decodeFrameV_asFound (b106 req : Bool) (frame : Bytes) :
-    decodeFrameV false b106 req frame = NfcDep.decodeFrame b106 req frame := by
-  unfold decodeFrameV NfcDep.decodeFrame stripStart
-  simp only [Bool.false_eq_true, false_and, if_false]
-  congr 1
+/-- the repaired frame model IS the (repaired) `decodeFrame` of property C04 -/
+theorem decodeFrameV_repaired (b106 req : Bool) (frame : Bytes) :
+    decodeFrameV true b106 req frame = NfcDep.decodeFrame b106 req frame := by
+  unfold decodeFrameV NfcDep.decodeFrame
+  simp only [true_and]
+  split
+  · rfl
+  · unfold NfcDep.decodeFrameAux stripStart
+    congr 1
 
 theorem rtoxOf_safe (data : Bytes) : Safe (fun e => e = .protocol) (rtoxOf true data) := by
   unfold rtoxOf
